@@ -72,7 +72,7 @@ def enumerated_identifiers() -> List[str]:
     return out
 
 
-WORDS = ["thing", "URL", "url", "Url", "id", "ID", "x", "value", "data", "kind", "a1", "b2", "I", "k", "item", "choice", "t", "abc", "no", "xs"]
+WORDS = ["thing", "URL", "url", "Url", "id", "ID", "x", "value", "data", "kind", "a1", "b2", "I", "k", "item", "choice", "abc", "no", "xs"]
 
 
 def random_identifier(rng: Any, upper_first: bool = False) -> str:
@@ -251,6 +251,13 @@ def random_mm(rng: Any, seed_kind: Optional[str] = None, with_methods: bool = Tr
     funcs = list(dict.fromkeys(funcs))
     mm = {"types": types, "consts": consts, "funcs": funcs, "seeded": kind}
 
+    def fix_abstract() -> None:
+        # an abstract class without a concrete descendant crashes several generators (not our property)
+        fl = flags_of(mm)
+        for t in classes:
+            if t.get("abstract") and not fl["has_desc"][t["name"]]:
+                t["abstract"] = False
+
     def member_names(c: Dict[str, Any]) -> set:
         return set(c21_mm.all_props(mm, c)) | set(c21_mm.all_methods(mm, c))
 
@@ -376,6 +383,7 @@ def random_mm(rng: Any, seed_kind: Optional[str] = None, with_methods: bool = Tr
                 new = {"kind": "class", "name": nm, "abstract": False, "parent": None, "props": [], "methods": [], "with_model_type": False}
                 types.append(new)
                 classes.append(new)
+    fix_abstract()
     return mm
 
 
@@ -409,10 +417,10 @@ def enumerated_mms() -> List[Dict[str, Any]]:
         mm([enum("Color", ["Red"]), enum("COLOR", ["Red"]), cls("Something", ["x"])]),
         mm([enum("Some_thing", ["Red"]), cls("Something", ["x"]), cls("SomeThing", ["y"])]),
         mm([cls("Some_URL", ["x"]), cls("Some_Url", ["y"])]),
-        mm([cls("Some_URL", ["x"], abstract=True), cls("Some_Url", ["y"], abstract=True), cls("Leaf", ["z"], parent="Some_URL")]),
+        mm([cls("Some_URL", ["x"], abstract=True), cls("Some_Url", ["y"], abstract=True), cls("Leaf", ["z"], parent="Some_URL"), cls("Leaf_two", ["z"], parent="Some_Url")]),
         mm([cls("Something", ["x"]), cls("I_something", ["y"])]),
         mm([cls("Something", ["x"]), enum("Isomething", ["A"])]),
-        mm([cls("Something", ["x"], abstract=True), cls("I_something", ["y"], abstract=True)]),
+        mm([cls("Something", ["x"], abstract=True), cls("ISomething", ["y"], abstract=True), cls("A", [], parent="Something"), cls("B", [], parent="ISomething")]),
         mm([enum("Color_kind", ["Red"]), enum("Color", ["Kind_red"]), cls("Something", ["x"])]),
         mm([enum("Color", ["Red"]), cls("Color_red", ["x"])]),
         mm(base, ["Some_const", "Some_Const"]),
@@ -565,24 +573,85 @@ def expected_json_counts(mm: Dict[str, Any]) -> Tuple[int, int]:
     return ndefs, nprops
 
 
+def _norm(s: str) -> str:
+    """The coarsest normalisation any of the conversions could apply (written from the property text, not
+    from the project's naming functions): case and underscores are ignored."""
+    return s.replace("_", "").lower()
+
+
+def _has_dup(names: Sequence[str]) -> bool:
+    return len(set(names)) < len(names)
+
+
+def colliding_groups(mm: Dict[str, Any]) -> List[str]:
+    """Entity groups of the meta-model in which two different entities have the same normalised name."""
+    groups = []
+    if _has_dup([_norm(c["name"]) for c in mm.get("consts", [])]):
+        groups.append("constants")
+    if _has_dup([_norm(f) for f in mm.get("funcs", [])]):
+        groups.append("functions")
+    structures = [_norm(t["name"]) for t in mm["types"]]
+    enums = [t for t in mm["types"] if t["kind"] == "enum"]
+    glob = [_norm(e["name"] + l) for e in enums for l in e["literals"]]
+    if (
+        any(_has_dup([_norm(l) for l in e["literals"]]) for e in enums)
+        or _has_dup(glob)
+        or set(glob) & (set(structures) | {"i" + x for x in structures})
+    ):
+        groups.append("literals")
+    for t in mm["types"]:
+        if t["kind"] == "class":
+            members = [_norm(x) for x in c21_mm.all_props(mm, t) + c21_mm.all_methods(mm, t)]
+            accessors = [pre + _norm(x) for x in c21_mm.all_props(mm, t) for pre in ("get", "set")]
+            if _has_dup(members) or set(members) & set(accessors):
+                if "members" not in groups:
+                    groups.append("members")
+    if _has_dup(structures) or set(structures) & {"i" + x for x in structures} or "modeltype" in structures:
+        groups.append("structures")
+    return groups
+
+
+def attribute(target: str, d: Dict[str, str], groups: Sequence[str]) -> str:
+    """Scope kind (root cause) of one duplicate declaration: the first entity group that can put names into
+    that kind of place and that does contain a normalised-name collision."""
+    file_class = d["sig"].split(":")[2]
+    scope, decl = d["scope"], d["decl"]
+    stem = file_class.split("/")[-1].split(".")[0].lower()
+    cands = []
+    if stem.startswith("constants"):
+        cands.append("constants")
+    if scope == "enum-body" or decl == "literal" or (target == "golang" and scope == "module" and decl == "var"):
+        cands.append("literals")
+    if stem.startswith("verification") or stem.startswith("pattern"):
+        cands.append("functions")
+    if scope in ("class-body", "interface-body", "struct-body", "properties", "required", "sequence"):
+        cands.append("members")
+    cands.append("structures")
+    for c in cands:
+        if c in groups:
+            return f"C21:{target}:{c}"
+    return f"C21:{target}:unattributed:{file_class}:{scope}:{decl}"
+
+
 def judge_output(target: str, out: pathlib.Path, mm: Dict[str, Any]) -> List[Tuple[str, str]]:
-    """The statement of C21 decided on one generated output. Returns [(sig, what)]."""
-    bad: List[Tuple[str, str]] = []
+    """The statement of C21 decided on one generated output. Returns [(sig, what)], one per scope kind."""
+    bad: Dict[str, str] = {}
+    groups = colliding_groups(mm)
     for d in c21_decl.duplicates(target, out):
-        bad.append(
-            (d["sig"], f"{target}: {d['decl']} {d['name']!r} is declared twice in {d['scope']} {d.get('scope_name', '')!r} of {d['file']}")
-        )
+        sig = attribute(target, d, groups)
+        what = f"{target}: {d['decl']} {d['name']!r} is declared twice in {d['scope']} {d.get('scope_name', '')!r} of {d['file']}"
+        bad.setdefault(sig, what)
     if target == "jsonschema":
         keys = c21_decl.json_keys(out)
         ndefs, nprops = expected_json_counts(mm)
         if len(set(keys["definitions"])) < ndefs:
-            bad.append(
-                ("C21:jsonschema:schema:definitions:count", f"jsonschema: {len(set(keys['definitions']))} definitions for {ndefs} entities (a definition was overwritten)")
+            bad.setdefault(
+                "C21:jsonschema:structures", f"jsonschema: {len(set(keys['definitions']))} definitions for {ndefs} entities (a definition was overwritten)"
             )
         got = sum(1 for ps in keys["properties"].values() for p in ps if p != "modelType")
         if got < nprops:
-            bad.append(("C21:jsonschema:schema:properties:count", f"jsonschema: {got} properties in the schema for {nprops} meta-model properties"))
-    return bad
+            bad.setdefault("C21:jsonschema:members", f"jsonschema: {got} properties in the schema for {nprops} meta-model properties (one overwrote another)")
+    return sorted(bad.items())
 
 
 class Runner:
@@ -673,8 +742,14 @@ def check_mm(ctx: Ctx, runner: Runner, mm: Dict[str, Any], stream: str, with_mod
             verdict, fails = gen[t]
             # the CLI path must agree with the in-process check (methods aside)
             if t in SDK and not has_methods:
-                if verdict.split(" ")[0] != impl[t].split(" ")[0]:
+                # a collision found by the check must come out as an error report (never a crash, never code);
+                # a crash after a passing check belongs to another property (C02)
+                v_cli, v_chk = verdict.split(" ")[0], impl[t].split(" ")[0]
+                if (v_chk == "err") != (v_cli == "err") or (v_chk.startswith("crash") and v_cli == "ok"):
                     ctx.disagree(f"cli-vs-verify:{t}", mm, verdict, impl[t])
+                    if v_chk == "err" and v_cli.startswith("crash"):
+                        ctx.fail(mm, f"{t}: the collision found by verify_for_types is not reported, main.execute raises {v_cli}", f"C21:{t}:collision-not-reported")
+                ctx.hit(f"cli:{t}:{v_cli.split(':')[0]}")
             rec["oracle"][t] = [list(f) for f in fails]
             for sig, what in fails:
                 ctx.hit("oracle:" + sig)
